@@ -57,7 +57,10 @@ Init == /\ table \in Tables
         /\ inp = [i \in 1..Len(src) |-> Tok(src[i], {}, FALSE)]
         /\ out = <<>> /\ cmdpos = TRUE /\ respos = TRUE /\ steps = 0
 
-Eligible(h) == /\ cmdpos \/ h.chk
+\* the word after a redirection operator is its target: never replaced, and the command prefix goes on after it
+IsTarget == Len(out) > 0 /\ out[Len(out)] = "<"
+Eligible(h) == /\ ~IsTarget
+               /\ cmdpos \/ h.chk
                /\ h.tok \in DOMAIN table
                /\ h.tok \notin h.org
                /\ ~IsQuoted(h.tok) /\ ~(respos /\ h.tok \in Reserved) /\ ~IsAssign(h.tok)
@@ -73,7 +76,9 @@ Step ==
                 /\ UNCHANGED <<out, cmdpos, respos>>
        ELSE /\ inp' = rest
             /\ out' = Append(out, h.tok)
-            /\ LET closes == h.tok = ")" /\ Count(out, "$(") > Count(out, ")")             \* the end of a command substitution: back inside a word
+            /\ IF h.tok = "<" \/ IsTarget THEN cmdpos' = cmdpos /\ respos' = FALSE      \* a redirection in the prefix: still in command position
+               ELSE
+               LET closes == h.tok = ")" /\ Count(out, "$(") > Count(out, ")")             \* the end of a command substitution: back inside a word
                    opens == ~closes /\ (h.tok \in Operators \/ h.tok = "$(" \/ (cmdpos /\ respos /\ OpensCmd(h.tok))) IN   \* a reserved word counts only where it is recognised
                /\ cmdpos' = (opens \/ (IsAssign(h.tok) /\ cmdpos))                             \* still in the command prefix
                /\ respos' = opens
